@@ -1457,7 +1457,12 @@ class ComponentSpecification(experiment.model.interface.InternalRepresentationAt
                 pattern = re.compile(r'\b' + re.escape(original_reference) + r'\b')
                 arguments = re.sub(pattern, replacement, arguments)
 
-            blueprint_name = self.identification.componentName.rstrip('0123456789')
+            # VV: Replicas are named <blueprint name><replica index> (see FlowIR.compile_component_replica()).
+            # Components that do not replicate may also have names which end in digits, so strip just the replica index
+            blueprint_name = self.identification.componentName
+            replica = self.configuration.get('variables', {}).get('replica')
+            if replica is not None and blueprint_name.endswith(str(replica)):
+                blueprint_name = blueprint_name[:-len(str(replica))]
 
             # VV: We need to fetch the executables before they were resolved. We don't want to have to resolve
             #     the executables of archived experiments before generating the memoization hashes of the components
